@@ -134,3 +134,149 @@ def readElectron (T : Tables ν) (lines : List (Line ν)) : Except RErr (List (N
   | _ => .error .runtime
 
 end BSE.Nwchem
+
+/-! # the ECP section -/
+namespace BSE.Nwchem
+variable {ν : Type}
+
+/-- a potential as stored: momentum and one term per line `(r exponent, gaussian exponent, coefficient)`
+(NWChem holds a single coefficient column per potential) -/
+structure EPot (ν : Type) where
+  am : Nat
+  terms : List (ν × ν × ν)
+
+/-- a potential as read; `am = none` while it is the `ul` placeholder -/
+structure RPot (ν : Type) where
+  am : Option (List Nat)
+  rexp : List ν
+  gexp : List ν
+  coef : List ν
+  deriving DecidableEq
+
+structure EcpTables (ν : Type) extends Tables ν where
+  isInt : ν → Bool                 -- helpers.is_integer
+  isDigits : Str → Bool            -- `\d+` of the nelec line
+
+def insertPot (p : EPot ν) : List (EPot ν) → List (EPot ν)
+  | [] => [p]
+  | q :: qs => if p.am < q.am then p :: q :: qs else q :: insertPot p qs
+
+/-- `sorted(pots, key=am)` then the highest first -/
+def writeOrder (pots : List (EPot ν)) : List (EPot ν) :=
+  let s := pots.foldr insertPot []
+  match s.getLast? with
+  | none => []
+  | some top => top :: s.dropLast
+
+def potLines (T : EcpTables ν) (z maxAm : Nat) (p : EPot ν) : List (Line ν) :=
+  .head [T.symOf z, if p.am = maxAm then "ul".toList else T.amStr [p.am]]
+    :: p.terms.map fun t => .row [t.1, t.2.1, t.2.2]
+
+/-- one element: `sym nelec N`, then its potentials in write order -/
+def ecpElementLines (T : EcpTables ν) (e : Nat × Str × List (EPot ν)) : List (Line ν) :=
+  let maxAm := (e.2.2.map (·.am)).foldl max 0
+  .head [T.symOf e.1, "nelec".toList, e.2.1] :: (writeOrder e.2.2).flatMap (potLines T e.1 maxAm)
+
+def ecpLines (T : EcpTables ν) (els : List (Nat × Str × List (EPot ν))) : List (Line ν) :=
+  .head ["ECP".toList] :: els.flatMap (ecpElementLines T) ++ [.head ["END".toList]]
+
+/-- reader state per element: electron count (token) and potentials in reading order -/
+abbrev EcpAcc (ν : Type) := List (Nat × Option Str × List (RPot ν))
+
+def setNelec (acc : EcpAcc ν) (z : Nat) (n : Str) : Except RErr (EcpAcc ν) :=
+  match acc with
+  | [] => .ok [(z, some n, [])]
+  | (z0, ne, ps) :: rest =>
+    if z0 = z then (match ne with | some _ => .error .runtime | none => .ok ((z0, some n, ps) :: rest))
+    else match setNelec rest z n with
+      | .error e => .error e
+      | .ok r => .ok ((z0, ne, ps) :: r)
+
+def addPot (acc : EcpAcc ν) (z : Nat) (p : RPot ν) : EcpAcc ν :=
+  match acc with
+  | [] => [(z, none, [p])]
+  | (z0, ne, ps) :: rest => if z0 = z then (z0, ne, ps ++ [p]) :: rest else (z0, ne, ps) :: addPot rest z p
+
+/-- `helpers.parse_ecp_table` -/
+def parseEcpTable (T : EcpTables ν) (rows : List (List ν)) : Except RErr (List ν × List ν × List ν) :=
+  if rows.any (fun r => r.length != 3) then .error .runtime else
+  let r := rows.filterMap (·[0]?)
+  let g := rows.filterMap (·[1]?)
+  let c := rows.filterMap (·[2]?)
+  if !r.all T.isInt then .error .runtime else
+  if !g.all T.isNum then .error .runtime else
+  if !c.all T.isNum then .error .runtime else .ok (r, g, c)
+
+def ecpBlock (T : EcpTables ν) (acc : EcpAcc ν) (b : List Str × List (List ν)) : Except RErr (EcpAcc ν) :=
+  if b.2.isEmpty then
+    -- a block of one line: must be `sym nelec N`
+    match b.1 with
+    | [sym, kw, n] =>
+      if !(isAlphaStr sym && lower kw == "nelec".toList && T.isDigits n) then .error .runtime else
+      match T.zOf (lower sym) with
+      | none => .error .key
+      | some z => setNelec acc z n
+    | _ => .error .runtime
+  else
+    match b.1 with
+    | [sym, am] =>
+      if !(isAlphaStr sym && isAlphaStr am) then .error .runtime else
+      match T.zOf sym with
+      | none => .error .key
+      | some z =>
+        let amv : Except RErr (Option (List Nat)) :=
+          if lower am == "ul".toList then .ok none else
+          match T.amOf am with
+          | none => .error .key
+          | some l => .ok (some l)
+        match amv with
+        | .error e => .error e
+        | .ok a =>
+          match parseEcpTable T b.2 with
+          | .error e => .error e
+          | .ok (r, g, c) => .ok (addPot acc z { am := a, rexp := r, gexp := g, coef := c })
+    | _ => .error .runtime
+
+def foldE {α β : Type} (f : β → α → Except RErr β) : β → List α → Except RErr β
+  | b, [] => .ok b
+  | b, a :: as => match f b a with | .error e => .error e | .ok b' => foldE f b' as
+
+/-- the `ul` potential gets (highest momentum among the others) + 1; `max()` of nothing is a ValueError (here: index) -/
+def fixUl (ps : List (RPot ν)) : Except RErr (List (RPot ν)) :=
+  let all := ps.flatMap fun p => p.am.getD []
+  match all with
+  | [] => .error .index
+  | a :: as =>
+    let m := as.foldl max a
+    .ok (ps.map fun p => match p.am with | none => { p with am := some [m + 1] } | some _ => p)
+
+/-- first closing loop: fix the placeholders of every element that has potentials -/
+def fixStep (e : Nat × Option Str × List (RPot ν)) : Except RErr (Nat × Option Str × List (RPot ν)) :=
+  if e.2.2.isEmpty then .ok e else
+  match fixUl e.2.2 with
+  | .error x => .error x
+  | .ok ps => .ok (e.1, e.2.1, ps)
+
+/-- second closing loop: potentials need an electron count -/
+def nelecStep (e : Nat × Option Str × List (RPot ν)) : Except RErr (Nat × Str × List (RPot ν)) :=
+  match e.2.1 with
+  | some n => .ok (e.1, n, e.2.2)
+  | none => if e.2.2.isEmpty then .ok (e.1, [], e.2.2) else .error .runtime
+
+def finishEcp (acc : EcpAcc ν) : Except RErr (List (Nat × Str × List (RPot ν))) :=
+  match mapR fixStep acc with
+  | .error x => .error x
+  | .ok acc' => mapR nelecStep acc'
+
+/-- `_parse_ecp_lines` -/
+def readEcp (T : EcpTables ν) (lines : List (Line ν)) : Except RErr (List (Nat × Str × List (RPot ν))) :=
+  match lines.filter (fun l => !isEnd l) with
+  | [] => .ok []
+  | _ :: body =>
+    let pb := blocksR body
+    if !pb.1.isEmpty then .error .runtime else
+    match foldE (ecpBlock T) [] pb.2 with
+    | .error e => .error e
+    | .ok acc => finishEcp acc
+
+end BSE.Nwchem
